@@ -424,7 +424,7 @@ func (r *Reader) seek(rec record) (*tableIter, error) {
 	}
 
 	tabIter, err := r.start(rec.typ(), false)
-	if err != nil {
+	if err != nil || tabIter == nil {
 		return nil, err
 	}
 
@@ -440,6 +440,9 @@ func (r *Reader) seekIndexed(want record) (*tableIter, error) {
 	idxIter, err := r.start(want.typ(), true)
 	if err != nil {
 		return nil, err
+	}
+	if idxIter == nil {
+		return nil, fmtError
 	}
 
 	wantIdx := &indexRecord{
@@ -465,6 +468,9 @@ func (r *Reader) seekIndexed(want record) (*tableIter, error) {
 		if err != nil {
 			return nil, err
 		}
+		if tabIter == nil {
+			return nil, fmtError
+		}
 
 		err = tabIter.bi.seek(want.key())
 		if err != nil {
@@ -476,7 +482,7 @@ func (r *Reader) seekIndexed(want record) (*tableIter, error) {
 		}
 
 		if tabIter.typ != blockTypeIndex {
-			log.Panicf("got type %c following indexes", tabIter.typ)
+			return nil, fmt.Errorf("reftable: got type %c following indexes", tabIter.typ)
 		}
 
 		idxIter = tabIter
@@ -617,6 +623,9 @@ func (r *Reader) refsForIndexed(oid []byte) (*Iterator, error) {
 	it, err := r.seek(want)
 	if err != nil {
 		return nil, err
+	}
+	if it == nil {
+		return &Iterator{&emptyIterator{}}, nil
 	}
 
 	got := objRecord{}
